@@ -7,8 +7,11 @@ import (
 	"iter"
 	"os"
 	"path/filepath"
+	"runtime"
 	"sort"
 	"strings"
+	"sync"
+	"time"
 
 	eb "github.com/jilio/ebu"
 	ebsql "github.com/jilio/ebu/stores/sqlite"
@@ -131,6 +134,40 @@ func (p *planStore) LoadOffset(ctx context.Context, id string) (eb.Offset, error
 	return off, err
 }
 
+// slowStore widens the window between an append and what the bus does next.
+type slowStore struct {
+	inner *eb.MemoryStore
+	mu    sync.Mutex
+	saves []eb.Offset
+	n     int
+}
+
+func (s *slowStore) Append(ctx context.Context, e *eb.Event) (eb.Offset, error) {
+	off, err := s.inner.Append(ctx, e)
+	s.mu.Lock()
+	s.n++
+	k := s.n
+	s.mu.Unlock()
+	if k%3 == 0 {
+		time.Sleep(50 * time.Microsecond)
+	} else {
+		runtime.Gosched()
+	}
+	return off, err
+}
+func (s *slowStore) Read(ctx context.Context, from eb.Offset, limit int) ([]*eb.StoredEvent, eb.Offset, error) {
+	return s.inner.Read(ctx, from, limit)
+}
+func (s *slowStore) SaveOffset(ctx context.Context, id string, off eb.Offset) error {
+	s.mu.Lock()
+	s.saves = append(s.saves, off)
+	s.mu.Unlock()
+	return s.inner.SaveOffset(ctx, id, off)
+}
+func (s *slowStore) LoadOffset(ctx context.Context, id string) (eb.Offset, error) {
+	return s.inner.LoadOffset(ctx, id)
+}
+
 type resumeCase struct {
 	ps        *planStore
 	bus       *eb.EventBus
@@ -249,6 +286,48 @@ func resumeDomain(lines []string) []string {
 			} else {
 				out = append(out, "sub ok")
 			}
+		case "racepub":
+			// concurrent publishers on a persistent bus with a live resumable subscription: every
+			// publish is recorded once with strictly increasing offsets in log order, and the
+			// subscription's saved offset never moves backwards
+			g, n := atoi(f[1]), atoi(f[2])
+			st := &slowStore{inner: eb.NewMemoryStore()}
+			b := eb.New(eb.WithStore(st))
+			_ = eb.SubscribeWithReplay(context.Background(), b, "r", func(e RT1) {})
+			var wg sync.WaitGroup
+			for i := 0; i < g; i++ {
+				wg.Add(1)
+				go func(i int) {
+					defer wg.Done()
+					for k := 0; k < n; k++ {
+						eb.Publish(b, RT1{i*1000 + k})
+					}
+				}(i)
+			}
+			wg.Wait()
+			evs, _, _ := st.inner.Read(context.Background(), eb.OffsetOldest, 0)
+			verdict := "racepub ok"
+			if len(evs) != g*n {
+				verdict = fmt.Sprintf("!racepub %d publishes produced %d records", g*n, len(evs))
+			}
+			prev := eb.Offset("")
+			for _, e := range evs {
+				if !(prev < e.Offset) {
+					verdict = fmt.Sprintf("!racepub records out of offset order: %s then %s", prev, e.Offset)
+					break
+				}
+				prev = e.Offset
+			}
+			st.mu.Lock()
+			for i := 1; i < len(st.saves); i++ {
+				if st.saves[i] < st.saves[i-1] {
+					verdict = fmt.Sprintf("!racepub saved offset moved backwards: %s then %s", st.saves[i-1], st.saves[i])
+					break
+				}
+			}
+			st.mu.Unlock()
+			out = append(out, verdict)
+			continue
 		case "restart":
 			out = append(out, "restart")
 		default:
